@@ -249,8 +249,14 @@ def link_algebra(repo: Repo) -> RuleRun:
     except Raised as err:
         raise AnalysisError(f"SymmetryLink raised {err.exc_name} on the linear-form model") from err
     except NotEvaluable as err:
-        raise AnalysisError(f"SymmetryLink not evaluable over the linear-form domain: {err}") from err
-    r.check(res == c09.EXPECTED, st, f"transform() = {res}", f"SymmetryLink.transform computes {res} for leader X and plane origin O; the mirror image about a plane through O is T(X - O) + O (an origin that is not added back, or subtracted twice, shows only for planes that miss the global origin)", st.node, key="symmetry:transform")
+        if "between a point expression and" in str(err) or "applied twice" in str(err):
+            # a direction where a point belongs (normal and origin swapped) or the reflection applied twice: positively wrong
+            r.bad(st, f"SymmetryLink: {err} - the mirror image is T(X - O) + O with X the leader, O the plane's origin and T built from the normal; the arguments are mixed up", st.node, key="symmetry:transform")
+            res = None
+        else:
+            raise AnalysisError(f"SymmetryLink not evaluable over the linear-form domain: {err}") from err
+    if res is not None:
+        r.check(res == c09.EXPECTED, st, f"transform() = {res}", f"SymmetryLink.transform computes {res} for leader X and plane origin O; the mirror image about a plane through O is T(X - O) + O (an origin that is not added back, or subtracted twice, shows only for planes that miss the global origin)", st.node, key="symmetry:transform")
     r.check(bool(matrix_args) and all(isinstance(a_, Sym) and a_.name == "unit" for a_ in matrix_args), st, "the reflection is built from a normalised normal", f"SymmetryLink builds its reflection matrix from {matrix_args}: mirror_matrix() is a reflection only for a UNIT normal (f.mirror normalises; a cached or inlined matrix must do so too)", st.node, key="symmetry:unit-normal")
     # GridBase.update sets the leader before updating and reads the follower afterwards (evaluated under C13.WHO-WRITES-POINTS)
     return r
